@@ -432,6 +432,9 @@ def run_case(E, case, prop, with_count=False):
         raise
     except Exception as e:      # noqa: BLE001 - the code under test raised on valid input: candidate "fails instead of returning"
         from ..harness import solve_exists
+        from ..runtime import _model_gap
+        if _model_gap(e):
+            raise Unsupported("model gap: " + _model_gap(e)) from e
         res_, m = solve_exists(list(inp.pre) + list(getattr(e, "gb_pc", [])), True)
         model = inp.eval(m) if m is not None else {}
         return {"verdict": "sat", "solver_s": 0.0, "symex_s": time.time() - t0, "n_queries": 1, "obligations": 0,
